@@ -28,7 +28,7 @@ HANDLERS = {"reti": [0xD9], "ret": [0xC9], "nop_reti": [0x00, 0xD9], "ei_ret": [
 # STOP is a two-byte instruction whatever its second byte holds (0x00 by convention): the byte is skipped, never executed
 STOP_OPERANDS = [0x00, 0x00, 0x3C, 0x04, 0xFB, 0x76, 0xD9]
 
-def c08_scenario(sid, seq, ime, if0, ie0, breq, aie, handler, base=0x150, extra_steps=6, devices=(), ext=()):
+def c08_scenario(sid, seq, ime, if0, ie0, breq, aie, handler, base=0x150, extra_steps=6, devices=(), ext=(), p1=False):
     code = []
     reti_returns = []
     for k, sym in enumerate(seq):
@@ -42,7 +42,8 @@ def c08_scenario(sid, seq, ime, if0, ie0, breq, aie, handler, base=0x150, extra_
     for i, ret in enumerate(reti_returns):       # the words main-line RETIs will pop
         iw.append((sp + 2 * i, ret & 0xFF)); iw.append((sp + 2 * i + 1, ret >> 8))
     iw.append((0xFF0F, if0)); iw.append((0xFFFF, ie0))
-    regs = cpu(a=aie, b=breq, d=0xFF, e=0xFF, h=0xFF, l=0x0F, sp=sp, pc=base)
+    # (with p1 the REQ symbol writes B to P1 instead of IF: a change of selection while keys are held is a request too)
+    regs = cpu(a=aie, b=breq, d=0xFF, e=0xFF, h=0xFF, l=0x00 if p1 else 0x0F, sp=sp, pc=base)
     iw += list(devices)
     # halted/stopped CPUs need update() calls to tick; allow some
     return scenario(sid, chunks, regs, len(seq) + extra_steps, mode="update", ime=ime, init_writes=iw, ext=ext)
@@ -81,8 +82,8 @@ def c08_random(n, maxlen, rng, start_id=1000000):
             ext = [(rng.choice([0, 0, rng.randrange(ln + extra)]), rng.choice(["press", "press", "release"]), rng.randrange(8)) for _ in range(rng.randint(1, 4))]
         out.append(c08_scenario(start_id + i, seq, rng.choice(["Disabled", "Enabled", "EnableNext"]),
                                 rng.choice([0, 1, 4, 0x1F, 0x10]), rng.choice([0, 4, 5, 0x1F] if kind != 2 else [0x10, 0x1F, 0x14, 0]),
-                                rng.choice([0, 1, 4, 0x14, 0x1F]), rng.choice([0, 1, 4, 5, 0x1F] if kind != 2 else [0x10, 0x1F, 0x11]),
-                                rng.choice(list(HANDLERS)), extra_steps=extra, devices=devices, ext=ext))
+                                rng.choice([0, 1, 4, 0x14, 0x1F] if kind != 2 else [0x10, 0x20, 0x30, 0x00, 0x14]), rng.choice([0, 1, 4, 5, 0x1F] if kind != 2 else [0x10, 0x1F, 0x11]),
+                                rng.choice(list(HANDLERS)), extra_steps=extra, devices=devices, ext=ext, p1=(kind == 2 and i % 2 == 0)))
     return out
 
 
@@ -533,9 +534,11 @@ def cache_history_scenario(sid, steps, cart, bankreg=0x2000, bankmap=(1, 2, 3)):
         routine = [0x78, 0xEA, bankreg & 0xFF, bankreg >> 8, 0xC3, 0x00, 0x40]      # LD A,B ; LD (bankreg),A ; JP 0x4000
         a.emit(0x21); a.word(0xC000)
         for x in routine: a.emit(0x36, x, 0x23)
-    for sym in steps:
+    for si, sym in enumerate(steps):
         if sym < 3:
             a.emit(0x3E, bankmap[sym], 0xEA); a.word(bankreg)
+            # two selections in a row are two blocks (a selection followed by a call shares its block with the call)
+            if si + 1 < len(steps) and steps[si + 1] < 3: a.emit(0x18, 0x00)
         elif sym == 3:
             a.emit(0xCD); a.word(LO_BLOCK)
         elif sym < 6:
